@@ -109,6 +109,18 @@ theorem inv_step {s s' : G} {l : Label} (h : Inv s) (hx : excluded s l = false)
     · rename_i hp
       cases hs
       exact inv_bump (inv_alloc h hp rfl (ent_newStored k s.nextVal))
+  | lspLookup k =>
+    simp only [gstep] at hs
+    split at hs
+    · rename_i e hp
+      cases hs
+      obtain ⟨he, _⟩ := h.pool k e hp
+      refine inv_bump (inv_upd h rfl ?_)
+      intro _
+      exact ent_lookup_ls (h.ent e he) (inPool_of_pool h hp)
+    · rename_i hp
+      cases hs
+      exact inv_bump (inv_alloc h hp rfl (ent_newPlain k s.nextVal))
   | lsRead e v =>
     simp only [gstep] at hs
     split at hs
@@ -141,12 +153,17 @@ theorem inv_step {s s' : G} {l : Label} (h : Inv s) (hx : excluded s l = false)
     · rename_i hg
       have hE := h.ent e hg.1
       obtain ⟨_, _, hv, _, _⟩ := ent_del2_facts hE hg.2.1 hg.2.2
-      rw [hv] at hs
-      simp only [if_true] at hs
-      cases hs
-      refine inv_upd h rfl ?_
-      intro _
-      exact ent_del2 hE hg.2.1
+      cases hpl : (s.ent e).plain
+      · simp only [hv, hpl, and_self, if_true] at hs
+        cases hs
+        refine inv_upd h rfl ?_
+        intro _
+        exact ent_del2 hE hg.2.1 hpl
+      · simp only [hv, hpl, Bool.true_eq_false, and_false, if_false, if_true] at hs
+        cases hs
+        refine inv_upd h rfl ?_
+        intro _
+        exact ent_del2_plain hE hg.2.1 hpl
     · cases hs
   | del3 e =>
     simp only [gstep] at hs
